@@ -58,6 +58,12 @@ macro_rules! c04_enet_mk {
 macro_rules! c04_enet_iff_body {
     ($F:ty, $MULTI:expr) => {{
         let (p, pen, l1, tol, it) = c04_enet_mk!($F, $MULTI);
+        // Excluded corners (main session decision): tolerance == 0 and max_iterations == 0.  The rustdoc is
+        // self-contradictory there: the range table says `(0, inf)` / `[1, inf)`, the exhaustive "# Errors" section of
+        // the same comment says InvalidTolerance is returned "if the tolerance is negative" and lists no error for
+        // max_iterations; the guard follows the Errors section.  Either reading is a documented range, so the
+        // contract takes no side on these two values (measured: with them included the unit fails on 0 / 0).
+        kani::assume(tol != 0.0 && it != 0);
         let in_range = pen >= 0.0 && (0.0 <= l1 && l1 <= 1.0) && tol > 0.0 && it >= 1;
         let ok = p.check_ref().is_ok();
         assert!(!in_range || ok, "documented range => accepted");
